@@ -295,3 +295,56 @@ def ob_add_history(i0: int, i1: int, patt0: int, patt1: int, warm: bool) -> bool
 
 def confirm_add_history(i0, i1, patt0, patt1, warm):
     return not _add_history(i0, i1, patt0, patt1, warm)
+
+
+# ---- error objects that live across requests (module-level "canned" errors returned or raised by several routes)
+_CANNED_A = Forbidden(is_breaking=False, detail='canned-A')
+_CANNED_B = NotFound(is_breaking=False, detail='canned-B')
+
+
+def _canned(r0, r1, r2, r3):
+    """rows: 0 no match, 1 returns the canned error A, 2 raises the canned error B, 3 raises a fresh non-breaking error,
+    4 answers.  The response is the first answering route's, else the MOST RECENT non-breaking error (the same object,
+    however often it was seen before), else 404."""
+    rows = [r0, r1, r2, r3]
+
+    def mk(i, kind):
+        def ep():
+            if kind == 1:
+                return _CANNED_A
+            if kind == 2:
+                raise _CANNED_B
+            if kind == 3:
+                raise NotFound(is_breaking=False, detail='fresh-%d' % i)
+            return Response('R%d' % i)
+        return ep
+    app = Application([Route('/x' if k else '/other%d' % i, mk(i, k)) for i, k in enumerate(rows)])
+    want = None
+    for i, k in enumerate(rows):
+        if k == 4:
+            want = ('resp', i)
+            break
+        if k:
+            want = ('nb', (k, i))
+    for _ in range(2):          # the second request sees whatever the first one left behind
+        ret = app.dispatch(_REQS[0])
+        if want is None:
+            ok = isinstance(ret, NotFound) and ret.status_code == 404 and ret is not _CANNED_B
+        elif want[0] == 'resp':
+            ok = not isinstance(ret, HTTPException) and ret.get_data() == b'R%d' % want[1]
+        else:
+            k, i = want[1]
+            ok = (ret is _CANNED_A) if k == 1 else (ret is _CANNED_B) if k == 2 else \
+                (isinstance(ret, NotFound) and ret.detail == 'fresh-%d' % i)
+        if not ok:
+            return False
+    return True
+
+
+def ob_canned(r0: int, r1: int, r2: int, r3: int) -> bool:
+    with untraced():
+        return _canned(r0, r1, r2, r3)
+
+
+def confirm_canned(r0, r1, r2, r3):
+    return not _canned(r0, r1, r2, r3)
